@@ -21,10 +21,13 @@ from translate import imports as tr
 PY = "/venv/bin/python"
 SYNTH = os.path.join(core.VERIF, "harness", "corpus", "C01-synth")        # synthetic scenario tree (its own `ioflo`)
 SYNTH_PROJ = os.path.join(core.SCRATCH, "imports", "synthproj")
+RUNDIR = os.path.join(core.SCRATCH, "imports", "run")
+import itertools as _it
+_COUNTER = _it.count()
 
 RUNNER = r'''
 import sys                      # NOTHING else may be imported before the imports under test: the point of C01
-repo = sys.argv[1]; mods = sys.argv[2].split(",") if sys.argv[2] else []
+repo = sys.argv[1]; mods = sys.argv[2].split(",") if sys.argv[2] else []; resfile = sys.argv[3]
 sys.path.insert(0, repo)
 raised = []
 for m in mods:
@@ -54,14 +57,15 @@ def cls(ex):
         if isinstance(ex, c):
             return n
     return "Other"
-out, detail = [], []
+out, detail, missing = [], [], []
 for ex in raised:
     if ex is None:
-        out.append("ok"); detail.append("")
+        out.append("ok"); detail.append(""); missing.append(None)
     else:
         w = where(ex.__traceback__)
         out.append("ERR %s %s %d" % (cls(ex), w[0], w[1]))
         detail.append("%s: %s" % (type(ex).__name__, str(ex)[:300]))
+        missing.append(getattr(ex, "name", None) if isinstance(ex, ModuleNotFoundError) else None)
 def fnv(s):
     h = 14695981039346656037
     for b in s.encode("utf-8"):
@@ -73,14 +77,51 @@ for k, (f, names) in loaded.items():
     if f and not os.path.abspath(f).startswith(root):
         wrong = f
     state.append("%s:%d:%016x" % (k, len(names), fnv(",".join(names))))
-sys.stdout.write("\n@@C01@@" + json.dumps({"out": out, "detail": detail, "state": state, "wrong": wrong}) + "\n")
+with open(resfile, "w") as f:
+    f.write(json.dumps({"out": out, "detail": detail, "missing": missing, "state": state, "wrong": wrong}))
 '''
 
 
-def command(repo, order):
-    """the `python -c` line that reproduces a case by hand"""
+# Legitimate ways a host starts the supported interpreter.  "base" is what every ordinary case uses; the others are
+# the host-configuration matrix (the model knows nothing about them: there the oracle is the check, see PARTIAL).
+CONFIGS = {
+    "base":      {"flags": ["-I"]},
+    "no-stdout": {"flags": ["-I"], "close": "1>&-"},          # sys.stdout is None (daemon, cron, `>&-`, pythonw)
+    "no-stderr": {"flags": ["-I"], "close": "2>&-"},
+    "no-stdin":  {"flags": ["-I"], "close": "0<&-"},
+    "no-std":    {"flags": ["-I"], "close": "0<&- 1>&- 2>&-"},
+    "-S":        {"flags": ["-I", "-S"]},                      # no site: no site-packages, fewer preloaded modules
+    "-E":        {"flags": ["-E", "-s"]},
+    "plain":     {"flags": []},
+    "-O":        {"flags": ["-I", "-O"]},
+    "-OO":       {"flags": ["-I", "-OO"]},
+    "-B":        {"flags": ["-I", "-B"]},
+    "cwd":       {"flags": ["-I"], "cwd": "/proc"},           # somewhere else, not writable
+    "C-locale":  {"flags": ["-s"], "env": {"LC_ALL": "C", "LANG": "C", "PYTHONCOERCECLOCALE": "0", "PYTHONUTF8": "0"}},
+}
+MATRIX = [c for c in CONFIGS if c != "base"]
+NO_MODEL = {"-S"}      # start-up states the generated graph does not describe (it is measured under -I)
+
+
+def argv_for(cfg, body_args):
+    c = CONFIGS[cfg]
+    cmd = [PY] + c["flags"] + body_args
+    if "close" in c:
+        cmd = ["/bin/sh", "-c", 'exec "$0" "$@" ' + c["close"]] + cmd
+    return cmd
+
+
+def command(repo, order, cfg="base"):
+    """the shell line that reproduces a case by hand"""
+    c = CONFIGS[cfg]
     body = "import sys; sys.path.insert(0, %r); " % repo + "; ".join("import " + m for m in order)
-    return "%s -I -c %s" % (PY, shlex.quote(body))
+    env = " ".join("%s=%s" % kv for kv in sorted(c.get("env", {}).items()))
+    line = "%s%s %s -c %s" % ("env " + env + " " if env else "", PY, " ".join(c["flags"]), shlex.quote(body))
+    if "cwd" in c:
+        line = "cd %s && %s" % (c["cwd"], line)
+    if "close" in c:
+        line += " " + c["close"]
+    return " ".join(line.split())
 
 
 class CHECK(core.Check):
@@ -95,7 +136,9 @@ class CHECK(core.Check):
             "module alone (quick and thorough), every ordered pair of modules of the same package (thorough; of the pairs "
             "whose two modules are both loaded by `import ioflo` itself only every 7th). Generated: "
             "random orders of random subsets (2..all modules, with repeats and with the top-level package at a random "
-            "position). Thorough tier also: about 900 random ordered pairs and 300 random triples of modules that "
+            "position). Host configurations (correspondence/oracle only): the package and, in thorough, every module "
+            "alone, in quick 3 modules rotating with the seed, under each of: std streams closed (fd 0, 1, 2, all), -S, "
+            "-E -s, no flags, -O, -OO, -B, cwd=/proc, C locale without UTF-8 mode. Thorough tier also: about 900 random ordered pairs and 300 random triples of modules that "
             "`import ioflo` does not load, across packages (the region where order independence is not proved); the synthetic tree harness/corpus/C01-synth (42 scenario packages exercising "
             "the import protocol: cycles, partial modules, star/__all__, fromlist, namespace packages, try/except, "
             "stdlib sub-module attributes ...; its modules alone, all ordered pairs and some permutations inside a "
@@ -124,6 +167,10 @@ class CHECK(core.Check):
                "(only exercised by the ordered pairs and random orders of the correspondence): that the first import of a "
                "module outside that set succeeds after imports of TWO OR MORE other modules outside that set, or after one "
                "that the pair table does not relate to it (C01_any_order_full)",
+               "host start-up configuration (closed std streams, -S, -O, locale, cwd ...) is NOT part of the Lean model: "
+               "the theorems are about the `-I` start-up state; the configuration matrix is checked by real imports only "
+               "(oracle), so an import-time effect that depends on the environment inside a function called at import time "
+               "(e.g. getConsole() -> Console.__init__ -> reopen() touching sys.stdout) is correspondence-only",
                "outside the model: imports and name uses inside function bodies executed at import time, dynamic namespace "
                "manipulation (globals().update), conditions the translator cannot fold (listed under translator.notes)"]
     TECHNIQUE = ("Lean 4: interpreter of CPython's import protocol over an import graph regenerated from the source on every "
@@ -241,22 +288,36 @@ class CHECK(core.Check):
         return cases
 
     # ------------------------------------------------------------------ real side
-    def _run(self, order, synth=False):
+    def _run(self, order, synth=False, cfg="base"):
         repo = SYNTH if synth else self.repo
-        p = subprocess.run([PY, "-I", "-c", RUNNER, repo, ",".join(order)], capture_output=True, text=True,
-                           cwd="/", timeout=600, env={"PATH": os.environ.get("PATH", ""), "IOFLO_VERIF": "1"})
-        line = [l for l in p.stdout.splitlines() if l.startswith("@@C01@@")]
-        if not line:
+        c = CONFIGS[cfg]
+        os.makedirs(RUNDIR, exist_ok=True)
+        import threading
+        resfile = os.path.join(RUNDIR, "r-%d-%d-%d.json" % (os.getpid(), threading.get_ident(), next(_COUNTER)))
+        env = {"PATH": os.environ.get("PATH", ""), "IOFLO_VERIF": "1"}
+        env.update(c.get("env", {}))
+        closing = "close" in c
+        p = subprocess.run(argv_for(cfg, ["-c", RUNNER, repo, ",".join(order), resfile]),
+                           stdin=None if closing else subprocess.DEVNULL,
+                           stdout=None if closing else subprocess.PIPE,
+                           stderr=None if closing else subprocess.PIPE, text=True,
+                           cwd=c.get("cwd", "/"), timeout=600, env=env)
+        try:
+            with open(resfile) as f:
+                r = json.loads(f.read())
+            os.remove(resfile)
+        except (OSError, ValueError):
             return ["HARNESS no result rc=%s %s" % (p.returncode, (p.stderr or "")[-300:].replace("\n", " | "))]
-        r = json.loads(line[-1][7:])
         if r["wrong"]:
             return ["HARNESS ioflo imported from %s instead of %s" % (r["wrong"], repo)]
         dyn = set(self.synth_graph().get("dynamic", [])) if synth else self.dynamic_modules()
         state = [x for x in r["state"] if x.split(":")[0] not in dyn]
         self._detail = getattr(self, "_detail", {})
-        for m, o, d in zip(order, r["out"], r["detail"]):
+        self._missing = getattr(self, "_missing", {})
+        for m, o, d, ms in zip(order, r["out"], r["detail"], r["missing"]):
             if d:
-                self._detail[(tuple(order), m)] = d
+                self._detail[(cfg, tuple(order), m)] = d
+                self._missing[(cfg, tuple(order), m)] = ms
         return r["out"] + [" ".join(state) if state else "-"]
 
     def tree_hash(self):
@@ -278,7 +339,7 @@ class CHECK(core.Check):
         cases = list(cases)
         todo = [c for c in cases if core.case_key(c) not in self._cache]
         with concurrent.futures.ThreadPoolExecutor(16) as pool:
-            for c, out in zip(todo, pool.map(lambda c: self._run(c["order"], bool(c.get("synth"))), todo)):
+            for c, out in zip(todo, pool.map(lambda c: self._run(c["order"], bool(c.get("synth")), c.get("cfg", "base")), todo)):
                 self._cache[core.case_key(c)] = out
         if todo:
             self.check_tree_unchanged()
@@ -287,7 +348,7 @@ class CHECK(core.Check):
     def impl(self, case):
         k = core.case_key(case)
         if k not in self._cache:
-            self._cache[k] = self._run(case["order"], bool(case.get("synth")))
+            self._cache[k] = self._run(case["order"], bool(case.get("synth")), case.get("cfg", "base"))
         return self._cache[k]
 
     # ------------------------------------------------------------------ model side
@@ -295,6 +356,8 @@ class CHECK(core.Check):
         return ["reset"] + ["load " + m for m in case["order"]] + ["state"]
 
     def model_post(self, case, replies):
+        if case.get("cfg") in NO_MODEL:
+            return self.impl(case)      # start-up state the generated graph does not describe: oracle only
         dyn = set(self.synth_graph().get("dynamic", [])) if case.get("synth") else self.dynamic_modules()
         outs = replies[1:-1]
         state = [x for x in replies[-1].split() if x.split(":")[0] not in dyn and x != "-"]
@@ -361,6 +424,7 @@ class CHECK(core.Check):
     def exhaustive(self, tier):
         dom = self.domain()
         cases = [{"order": [m]} for m in dom]
+        cases += self.matrix_cases(tier, dom)
         if tier == "thorough":
             # what `import ioflo` itself loads (taken from the real run): a pair of two such modules only repeats
             # "the second import is a no-op", so only every 7th of those pairs is kept
@@ -379,6 +443,25 @@ class CHECK(core.Check):
                                 continue
                             cases.append({"order": [a, b]})
         return self.prefetch(cases)
+
+    def matrix_cases(self, tier, dom):
+        """host start-up configurations: thorough = the package and every module alone under every configuration;
+        quick = the package under every configuration plus a subset of the modules that rotates with VERIF_SEED"""
+        import random
+        cases = []
+        seed = int(os.environ.get("VERIF_SEED", "0") or 0)
+        for i, cfg in enumerate(MATRIX):
+            if tier == "thorough":
+                ms = list(dom)
+            else:
+                r = random.Random(seed * 1000 + i)
+                ms = (["ioflo"] if "ioflo" in dom else []) + r.sample(dom, min(3, len(dom)))
+            seen = set()
+            for m in ms:
+                if m not in seen:
+                    seen.add(m)
+                    cases.append({"order": [m], "cfg": cfg})
+        return cases
 
     def _random_case(self, rng, dom):
         kind = rng.randrange(5)
@@ -428,22 +511,48 @@ class CHECK(core.Check):
         if case.get("synth"):
             return None       # these modules are meant to fail; only model == CPython is checked on them
         order = case["order"]
+        cfg = case.get("cfg", "base")
         if len(out) != len(order) + 1:
             return "harness: %s" % (out[:1],)
         for m, o in zip(order, out):
             if o != "ok":
-                d = getattr(self, "_detail", {}).get((tuple(order), m), "")
-                return "import of %s failed: %s [%s]; reproduce: %s" % (m, o, d, command(self.repo, order[:order.index(m) + 1]))
+                if self.expected_absent(cfg, order, m, o):
+                    continue
+                d = getattr(self, "_detail", {}).get((cfg, tuple(order), m), "")
+                return "import of %s failed%s: %s [%s]; reproduce: %s" % (
+                    m, "" if cfg == "base" else " in host configuration `%s`" % cfg, o, d,
+                    command(self.repo, order[:order.index(m) + 1], cfg))
         seen = set()
         for m, o in zip(order, out):
             if m in seen:
                 continue
             seen.add(m)
             c = self.cold(m)
-            if c.split()[:2] != o.split()[:2]:
-                return "import of %s after %s: %s, but alone in a fresh interpreter: %s; reproduce: %s" % (
-                    m, order[:order.index(m)], o, c, command(self.repo, order[:order.index(m) + 1]))
+            if c.split()[:2] != o.split()[:2] and not self.expected_absent(cfg, order, m, o):
+                return "import of %s after %s%s: %s, but alone in a fresh interpreter: %s; reproduce: %s" % (
+                    m, order[:order.index(m)], "" if cfg == "base" else " in host configuration `%s`" % cfg, o, c,
+                    command(self.repo, order[:order.index(m) + 1], cfg))
         return None
+
+    def expected_absent(self, cfg, order, m, o):
+        """under `-S` there is no site-packages directory: a module of the tree whose own import of a third-party
+        distribution fails with ModuleNotFoundError there is not an ioflo defect (DESIGN C01: optional third-party
+        modules).  Decided from the real run only: the missing module is not ioflo's and lives in site-packages."""
+        if cfg != "-S" or not o.startswith("ERR ModuleNotFoundError"):
+            return False
+        name = getattr(self, "_missing", {}).get((cfg, tuple(order), m))
+        if not name or name == "ioflo" or name.startswith("ioflo."):
+            return False
+        import importlib.util
+        try:
+            spec = importlib.util.find_spec(name.partition(".")[0])
+        except Exception:
+            return False
+        ok = bool(spec and spec.origin and "site-packages" in spec.origin)
+        if ok:
+            self._absent = getattr(self, "_absent", set())
+            self._absent.add("%s: %s (imported by %s)" % (cfg, name, m))
+        return ok
 
     def nontrivial(self, case, out):
         return len(case["order"]) > 0 and not out[0].startswith("HARNESS")
@@ -451,6 +560,8 @@ class CHECK(core.Check):
     def bucket(self, case, out):
         if case.get("synth"):
             return "synthetic-semantics-tree"
+        if case.get("cfg"):
+            return "host-config:" + case["cfg"] + ("+failing-import" if any(o.startswith("ERR") for o in out[:-1]) else "")
         n = len(case["order"])
         b = "single" if n == 1 else "pair" if n == 2 else "order-3..29" if n < 30 else "order-30+"
         if any(o.startswith("ERR") for o in out[:-1]):
@@ -474,11 +585,14 @@ class CHECK(core.Check):
 
     def shrink_candidates(self, case):
         order = case["order"]
+        extra = {k: v for k, v in case.items() if k != "order"}
         if len(order) > 4:
-            yield {"order": order[:len(order) // 2]}
-            yield {"order": order[len(order) // 2:]}
+            yield dict(extra, order=order[:len(order) // 2])
+            yield dict(extra, order=order[len(order) // 2:])
         for i in range(len(order)):
-            yield {"order": order[:i] + order[i + 1:]}
+            yield dict(extra, order=order[:i] + order[i + 1:])
+        if case.get("cfg"):
+            yield {"order": order}        # does it also fail in the ordinary configuration?
 
     def extra_evidence(self):
         g = self.graph()
@@ -492,4 +606,9 @@ class CHECK(core.Check):
                                n for n, nd in nodes.items() if not nd["ioflo"] and not nd["exists"]
                                and "." not in n)},
             "tree": self.repo,
+            "host_configurations": {c: " ".join(argv_for(c, ["-c", "..."])) + ((" cwd=" + CONFIGS[c]["cwd"]) if "cwd" in CONFIGS[c] else "")
+                                    + ((" env " + " ".join("%s=%s" % kv for kv in sorted(CONFIGS[c]["env"].items()))) if "env" in CONFIGS[c] else "")
+                                    for c in CONFIGS},
+            "expected_absent_under_-S": sorted(getattr(self, "_absent", set())),
+            "std_stream_uses_at_import": g.get("std_stream_uses", []),
         }
